@@ -734,6 +734,7 @@ func main() {
 	optionsChecks(ctx)
 	customChecks(ctx)
 	optionReuseChecks(ctx)
+	builtinsOrderChecks(ctx)
 	ambientOracle(ctx)
 	ctx.Finish()
 }
